@@ -75,6 +75,7 @@ type letDef struct {
 }
 
 type Lemma struct {
+	LemmaOnly bool
 	Name  string
 	Mode  string
 	Expr  *SExpr
@@ -886,6 +887,9 @@ func (sp *Specs) loadFile(path string, defaultPkg string) error {
 					lm.Mode = f[len("mode="):]
 				} else if strings.HasPrefix(f, "use=") {
 					lm.Use = f[len("use="):]
+				} else if f == "scope=lemmas" {
+					// an opaque definition: visible only while proving lemmas, never in the VCs of functions
+					lm.LemmaOnly = true
 				}
 			}
 			e, err := parseSpecExpr(text, pos)
